@@ -146,6 +146,10 @@ def campaign(ctx, cfg, layout):
             if ctx.quick() and big and i > 200 and i % 9: continue
             if alt and i > 60 and i % (23 if ctx.quick() else 3): continue
             vals = [e[i] ^ (1 << (i % 8))] + ([] if (ctx.quick() and big) else [0x00, 0xff]) + ([e[i] ^ (1 << b) for b in range(8)] if not ctx.quick() else [])
+            # encoding-tag values: a point or flag byte replaced by the other tags of its encoding family (SEC1: 0x02/0x03
+            # compressed, 0x04 uncompressed, 0x05 compact, 0x06/0x07 hybrid; 0x00 identity) - a decoder that accepts a second
+            # encoding of the same value makes the serialized form malleable although the parsed object is unchanged
+            if i < 17 + PT * len(parsed[ei].c) + 2: vals += [0x04, 0x05, e[i] ^ 0x06, e[i] ^ 0x07, e[i] ^ 0x01]
             for v in dict.fromkeys(vals):
                 if v != e[i]: muts.append(('byte %s' % ('in tag' if i < 16 else 'in traps' if i < 17 + PT * len(parsed[ei].c) else 'in entries'), e[:i] + bytes([v]) + e[i + 1:]))
         others = [parsed[j] for j in range(len(parsed)) if j != ei][:3]
